@@ -357,7 +357,7 @@ def compare_view(orig, got, what, stats=True):
     Returns None or (part, message)."""
     if "load" in got:
         return exc_part(got, "load"), "%s: loading raised %s" % (what, exc_of(got, "load"))
-    for name in ("samples", "pl", "ll", "lp", "w", "best", "inst", "info") + (("median", "v1", "e1", "e3") if stats else ()):
+    for name in ("samples", "pl", "ll", "lp", "w", "best", "inst", "info") + (("median", "v1", "e1", "e3", "v3") if stats else ()):
         e = exc_of(got, name)
         if e and not exc_of(orig, name):
             return exc_part(got, name), "%s: %s raised %s" % (what, name, e)
@@ -372,7 +372,7 @@ def compare_view(orig, got, what, stats=True):
     if (a is None) != (b is None) or (a is not None and dict(map(tuple, a)) != dict(map(tuple, b))):
         return "values", "%s: best-fit instance differs: %s vs %s" % (what, a, b)
     if stats:
-        for name in ("median", "v1", "e1", "e3"):
+        for name in ("median", "v1", "e1", "e3", "v3"):
             if by_col(got, name) != by_col(orig, name):
                 return "values", "%s: %s differ: %s vs %s" % (what, name, by_col(got, name), by_col(orig, name))
     gi, oi = ok(got, "info"), ok(orig, "info")
@@ -672,6 +672,312 @@ def oracle_fit(c, r):
     return fails
 
 
+
+# ---------------------------------------------------------------------------
+# summary statistics: quantile(x, q, weights) and SamplesPDF (kinds "quant" and "pdf")
+# ---------------------------------------------------------------------------
+SIGMA_QS = None
+
+
+def gen_exact_quant(rng, thorough):
+    """inputs on which every binary64 operation of quantile() is exact: values on a 1/8 grid, non-zero weights powers of
+    two, the weights of all samples but the one of largest value summing to a power of two, levels on a 1/1024 grid"""
+    n = rng.choice([2, 2, 3, 3, 4, 5, 6, 8, 9] + ([17, 33] if thorough else [12]))
+    parts = [2.0 ** rng.randint(-2, 4)]
+    while len(parts) < n - 1 and rng.random() < 0.85:
+        k = rng.randrange(len(parts))
+        h = parts.pop(k) / 2
+        parts[k:k] = [h, h]
+    while len(parts) < n - 1:
+        parts.insert(rng.randrange(len(parts) + 1), 0.0)          # zero-weight samples
+    style = rng.random()
+    xs, cur = [], rng.randint(-40, 40) / 8
+    for i in range(n - 1):
+        xs.append(cur)
+        if style < 0.15:
+            pass                                                   # every sample has the same value
+        elif rng.random() < (0.35 if style < 0.6 else 0.0):
+            pass                                                   # tie with the next sample
+        else:
+            cur += rng.randint(1, 24) / 8
+    r = rng.random()
+    if r < 0.2 and n >= 3 and xs[-1] > xs[-2]:
+        xs.append(xs[-1])                                          # two samples share the largest value: equal weights
+        wlast = parts[-1]
+    elif style < 0.15:
+        xs = xs[:1] * (n - 1) + [xs[0] + 1.0]
+        wlast = rng.choice([0.0, 1.0, 0.5, 3.0])
+    else:
+        xs.append(xs[-1] + rng.randint(1, 24) / 8)
+        wlast = rng.choice([0.0, 0.25, 1.0, 3.0, 1024.0, parts[0]])
+    ws = parts + [wlast]
+    order = list(range(n))
+    rng.shuffle(order)
+    qs = [0.0, 1.0, 0.5] + [rng.randint(0, 1024) / 1024 for _ in range(3)] + [rng.choice([1 / 1024, 1023 / 1024, 0.25, 0.75])]
+    if rng.random() < 0.2:
+        qs.append(rng.choice([-0.5, 1.5, -1 / 1024]))
+    return {"kind": "quant", "exact": True, "xs": [hx(xs[i]) for i in order], "ws": [hx(ws[i]) for i in order],
+            "qs": [hx(q) for q in qs], "array": rng.random() < 0.5}
+
+
+def gen_float_quant(rng, thorough):
+    n = rng.choice([0, 1, 1, 2, 2, 3, 4, 5, 7, 8, 9, 16, 17, 30] + ([64, 200] if thorough else []))
+    mode = rng.random()
+    if mode < 0.3:
+        xs = [float(rng.randint(-3, 3)) for _ in range(n)]
+    elif mode < 0.6:
+        xs = [rng.uniform(-10, 10) for _ in range(n)]
+    elif mode < 0.85:
+        xs = [rand_float(rng, allow_inf=mode > 0.8) for _ in range(n)]
+    else:
+        xs = [rng.choice([0.0, -0.0, 1.5, 5e-324, rng.gauss(0, 1)]) for _ in range(n)]
+    m2 = rng.random()
+    if m2 < 0.35:
+        ws = [rng.random() for _ in range(n)]
+        tot = sum(ws) or 1.0
+        ws = [w / tot for w in ws]
+    elif m2 < 0.5:
+        ws = [1.0 / n] * n if n else []
+    elif m2 < 0.75:
+        ws = [rng.choice([0.0, 0.0, 0.25, 0.5, 1.0]) for _ in range(n)]
+    else:
+        ws = [rng.choice([0.0, 1e-320, 1e300, 1e-300, rng.random()]) for _ in range(n)]
+    global SIGMA_QS
+    lv = [0.0, 1.0, 0.5, rng.random(), rng.random()] + [0.15865525393145707, 0.8413447460685429,
+                                                         0.0013498980316301035, 0.9986501019683699]
+    if rng.random() < 0.15:
+        lv.append(rng.choice([-1e-9, 1.0000000000000002, 2.0, -5e-324]))
+    return {"kind": "quant", "exact": False, "xs": [hx(x) for x in xs], "ws": [hx(w) for w in ws], "qs": [hx(q) for q in lv],
+            "array": rng.random() < 0.5}
+
+
+def gen_pdf_rows(rng, npri, thorough):
+    n = rng.choice([2, 2, 3, 4, 5, 6, 8, 9, 12, 17, 30, 130] + ([101, 257] if thorough else []))
+    vmode = rng.random()
+    grid = [rng.randint(-8, 8) / 4 for _ in range(4)]
+    rows = []
+    for i in range(n):
+        if vmode < 0.35:
+            p = [rng.choice(grid) for _ in range(npri)]                   # many ties
+        elif vmode < 0.6:
+            p = [rng.randint(-64, 64) / 8 for _ in range(npri)]
+        elif vmode < 0.9:
+            p = [rng.uniform(-10, 10) for _ in range(npri)]
+        else:
+            p = [rand_float(rng) for _ in range(npri)]
+        ll = -abs(rng.gauss(0, 50)) if not rows or rng.random() < 0.85 else unhex(rows[-1]["ll"])
+        rows.append({"p": [hx(x) for x in p], "ll": hx(ll), "lp": hx(0.0), "w": hx(0.0)})
+    wmode = rng.choice(["equal", "norm", "norm", "zeros", "dominant", "boundary", "dyadic"])
+    if wmode == "equal":
+        ws = [1.0 / n] * n
+    elif wmode == "norm":
+        ws = [rng.random() for _ in range(n)]
+        tot = sum(ws)
+        ws = [w / tot for w in ws]
+    elif wmode == "zeros":
+        ws = [rng.choice([0.0, 0.0, rng.random()]) for _ in range(n)]
+        tot = sum(ws) or 1.0
+        ws = [w / tot for w in ws]
+    elif wmode == "dominant":
+        ws = [1e-4 / n] * n
+        ws[rng.randrange(n)] = rng.choice([0.995, 1.0, 0.9900000000000001])
+    elif wmode == "boundary":
+        ws = [0.01 / (n - 1)] * n
+        ws[rng.randrange(n)] = 0.99                                        # np.max(w) > 0.99 is false: still converged
+    else:
+        ws = [rng.choice([0.0, 0.125, 0.25, 0.25, 0.5]) for _ in range(n)]
+    for r, w in zip(rows, ws):
+        r["w"] = hx(w)
+    return rows, wmode
+
+
+def gen_stat_cases(rng, thorough, g):
+    cases = []
+    for _ in range(60 if not thorough else 400):
+        cases.append(gen_exact_quant(rng, thorough))
+    for _ in range(60 if not thorough else 400):
+        cases.append(gen_float_quant(rng, thorough))
+    for _ in range(36 if not thorough else 200):
+        g.rng, keep = rng, g.rng
+        tree, npri = g.tree()
+        g.rng = keep
+        rows, wmode = gen_pdf_rows(rng, npri, thorough)
+        c = {"kind": "pdf", "tree": tree, "npri": npri, "kinds": ["u"], "rows": rows, "wmode": wmode}
+        if rng.random() < 0.3:
+            c["numpy"] = rng.choice(["scalar", "array"])
+        cases.append(c)
+    return cases
+
+
+def fsum_but_last(ws, perm):
+    acc = None
+    for i in perm[:-1]:
+        acc = ws[i] if acc is None else acc + ws[i]
+    return acc
+
+
+def weights_defined(ws, perm):
+    """the cases the binary64 model is compared on: finite non-negative weights whose running sum up to the sample of
+    largest value is positive and finite (otherwise numpy interpolates over NaN breakpoints)"""
+    if len(ws) < 2:
+        return True                      # IndexError before any arithmetic
+    if any(math.isnan(w) or math.isinf(w) or w < 0 for w in ws) or sorted(perm) != list(range(len(ws))):
+        return False
+    c = fsum_but_last(ws, perm)
+    return c is not None and 0 < c < float("inf")
+
+
+def qres_of(x, f):
+    """attempt() result -> Coq qres term, None if the exception is not one the model knows"""
+    if "ok" in x:
+        return "(QOk %s)" % f(x["ok"])
+    return {"IndexError": "QIndexErr", "ValueError": "QValueErr"}.get(x["exc"])
+
+
+def cQ(x):
+    from fractions import Fraction
+    fr = Fraction(x)
+    return "(%d # %d)%%Q" % (fr.numerator, fr.denominator)
+
+
+def oracle_quant(c, r):
+    """direct statements on the implementation's outputs: inside the range of the values, monotone in the level,
+    ValueError exactly for levels outside [0, 1], IndexError exactly for fewer than two samples"""
+    fails = []
+    xs = [unhex(x) for x in c["xs"]]
+    ws = [unhex(x) for x in c["ws"]]
+    qs = [unhex(q) for q in c["qs"]]
+    outs = r["outs"]
+    defined = weights_defined(ws, r["argsort"]) and not any(math.isnan(x) for x in xs)
+    vals = []
+    for q, o in zip(qs, outs):
+        if q < 0 or q > 1:
+            if o.get("exc") != "ValueError":
+                fails.append(("quantile", "values", "quantile(q=%r) did not raise ValueError: %s" % (q, o)))
+        elif len(xs) < 2:
+            if o.get("exc") != "IndexError":
+                fails.append(("quantile", "values", "quantile of %d samples: %s" % (len(xs), o)))
+        elif defined:
+            if "ok" not in o:
+                fails.append(("quantile", "exc:%s" % o["exc"], "quantile raised %s" % exc_of({"o": o}, "o")))
+                continue
+            v = unhex(o["ok"])
+            # binary64 overflow of the slope (values beyond 1e100 or a weight below 1e-100 of the total) legitimately gives
+            # inf / NaN: the statements below are about the rational function, they are checked where no overflow can occur
+            if not all(abs(x) <= 1e100 for x in xs) or not all(w == 0 or w >= 1e-100 * sum(ws) for w in ws):
+                continue
+            tol = 0.0 if c["exact"] else 1e-9 * max(abs(min(xs)), abs(max(xs)), 1e-300)
+            if not (min(xs) - tol <= v <= max(xs) + tol):
+                fails.append(("quantile", "values", "quantile(q=%r)=%r outside [%r, %r]" % (q, v, min(xs), max(xs))))
+            vals.append((q, v, tol))
+    vals.sort()
+    for (q1, v1, tol), (q2, v2, _) in zip(vals, vals[1:]):
+        if not (math.isnan(v1) or math.isnan(v2)) and v1 > v2 + tol:
+            fails.append(("quantile", "values", "quantile not monotone: q=%r -> %r, q=%r -> %r" % (q1, v1, q2, v2)))
+    return fails
+
+
+def oracle_pdf(c, r):
+    """lower <= median <= upper at 1 and 3 sigma, errors are the differences, the in-memory samples are the rows"""
+    fails = []
+    o = r["orig"]
+    rows = c["rows"]
+    if ok(o, "pl") != [[hx(unhex(x)) for x in row["p"]] for row in rows] or ok(o, "w") != [hx(unhex(x["w"])) for x in rows]:
+        return [("memory", "values", "Sample.from_lists does not hold the given rows")]
+    # slope overflow in binary64 (see oracle_quant): order statements only where it cannot occur
+    wsum = sum(unhex(x["w"]) for x in rows)
+    big = any(abs(unhex(x)) > 1e100 for row in rows for x in row["p"]) or \
+        any(0 < unhex(x["w"]) < 1e-100 * wsum for x in rows)
+    med = ok(o, "median")
+    if med is None:
+        return [("stats", exc_part(o, "median"), "median_pdf raised %s" % exc_of(o, "median"))]
+    for nm in ("v1", "v3"):
+        v = ok(o, nm)
+        if v is None:
+            fails.append(("stats", exc_part(o, nm), "%s raised %s" % (nm, exc_of(o, nm))))
+            continue
+        for m, (lo, hi) in zip(med, v):
+            m, lo, hi = unhex(m), unhex(lo), unhex(hi)
+            if not all(math.isfinite(x) for x in (m, lo, hi)) or big:
+                continue
+            tol = 1e-9 * max(abs(lo), abs(hi), 1e-300)
+            if c["wmode"] not in ("dominant",) and not (lo - tol <= m <= hi + tol):
+                fails.append(("stats", "values", "%s: median %r not inside [%r, %r]" % (nm, m, lo, hi)))
+    v1, v3 = ok(o, "v1"), ok(o, "v3")
+    if v1 and v3:
+        for (lo1, hi1), (lo3, hi3) in zip(v1, v3):
+            lo1, hi1, lo3, hi3 = (unhex(x) for x in (lo1, hi1, lo3, hi3))
+            if not all(math.isfinite(x) for x in (lo1, hi1, lo3, hi3)) or big:
+                continue
+            tol = 1e-9 * max(abs(lo3), abs(hi3), 1e-300)
+            if not (lo3 - tol <= lo1 and hi1 <= hi3 + tol):
+                fails.append(("stats", "values", "3 sigma interval [%r, %r] does not contain the 1 sigma one [%r, %r]" % (lo3, hi3, lo1, hi1)))
+    return fails
+
+
+def stats_term(o):
+    """CStats term from a view (in-memory or reloaded samples), or (None, reason)"""
+    st = ok(o, "statin")
+    pl, ll, w, best = ok(o, "pl"), ok(o, "ll"), ok(o, "w"), ok(o, "best")
+    if st is None or pl is None or ll is None or w is None or best is None or not pl:
+        return None, "no-inputs"
+    ws = [unhex(x) for x in w]
+    if any(math.isnan(unhex(x)) for row in pl for x in row) or any(math.isnan(x) for x in ws + [unhex(x) for x in ll]):
+        return None, "nan"
+    if st["total"] != len(pl) or len(pl) >= 5000:
+        return None, "total-samples-differs"
+    converged = not (max(ws) > 0.99)
+    if converged and not all(weights_defined(ws, perm) for perm in st["argsort"]):
+        return None, "undefined-weights"
+    parts = []
+    for nm in ("median",):
+        t = qres_of(o[nm], cfl)
+        if t is None:
+            return None, "exception:%s" % o[nm].get("exc")
+        parts.append(t)
+    for nm in ("v1", "e1", "v3", "e3"):
+        t = qres_of(o[nm], lambda v: "(%s, %s)" % (cfl([a for a, _ in v]), cfl([b for _, b in v])))
+        if t is None:
+            return None, "exception:%s" % o[nm].get("exc")
+        parts.append(t)
+    q = [cfloat(unhex(x)) for x in st["qs"]]
+    return "CStats %s %s %s %s %s %s %s %s %s %s %s" % (
+        clist([cfl(r) for r in pl]), cfl(ll), cfl(w), clist([clist([cnat(i) for i in perm]) for perm in st["argsort"]]),
+        cnat(st["ucs"]), q[0], q[1], q[2], q[3], cfl(best), " ".join(parts)), ("converged" if converged else "unconverged")
+
+
+def coq_cases2(c, r):
+    """list of (route, term, class label) for check_case2"""
+    out = []
+    if c["kind"] == "quant":
+        xs = [unhex(x) for x in c["xs"]]
+        ws = [unhex(x) for x in c["ws"]]
+        qs = [unhex(q) for q in c["qs"]]
+        perm = r["argsort"]
+        outs = [qres_of(o, lambda v: cfloat(unhex(v))) for o in r["outs"]]
+        if None in outs:
+            return [("quantile", None, "unknown-exception")]
+        if weights_defined(ws, perm) and not any(math.isnan(x) for x in xs):
+            out.append(("quantile", "CQuantF %s %s %s %s %s" % (cfl(c["xs"]), cfl(c["ws"]), clist([cnat(i) for i in perm]),
+                                                             cfl(c["qs"]), clist(outs)), "float"))
+        else:
+            out.append(("quantile", None, "undefined-weights"))
+        if c["exact"]:
+            qouts = [qres_of(o, lambda v: cQ(unhex(v))) for o in r["outs"]]
+            out.append(("quantile", "CQuantQ %s %s %s %s %s" % (clist([cQ(x) for x in xs]), clist([cQ(x) for x in ws]),
+                                                             clist([cnat(i) for i in perm]), clist([cQ(x) for x in qs]),
+                                                             clist(qouts)), "exact"))
+        return out
+    views = [("memory", r.get("orig"))]
+    if c["kind"] == "samples":
+        views += [(route, r.get(route)) for route in ("csv", "agg", "db_all")]
+    for route, v in views:
+        if not v or "load" in v:
+            continue
+        t, label = stats_term(v)
+        out.append((route, t, label))
+    return out
+
 # ---------------------------------------------------------------------------
 # Coq case printer
 # ---------------------------------------------------------------------------
@@ -746,9 +1052,9 @@ def coq_cases(c, r):
         obs = clist(["(%s, %s, %s)" % (cstr(n), "None" if tok is None else ("(Some %s)" % cnat(tok) if 0 <= tok < 5000 else "(Some 4999%nat)"),
                                           cnat(cnt)) for n, tok, cnt in r["obs"]])
         return [("db_json", "CJsonHist %s %s" % (h, obs))]
-    t = "(%s)" % cnode(c["tree"])
     if c["kind"] != "samples":
         return out
+    t = "(%s)" % cnode(c["tree"])
     sh = r["shape"]
     out.append(("shape", "CShape %s %s %s %s %s %s" % (
         t, clist(["(%s, %s)" % (cpath(p), cnat(i)) for p, i in sh["ws"]]), clist([cpath(p) for p in sh["u"]]),
@@ -825,6 +1131,8 @@ def nontrivial(c):
     if c["kind"] == "jsonhist":
         names = [op["name"] for op in c["ops"] if op["op"] == "set"]
         return len(names) > len(set(names))          # some name saved more than once
+    if c["kind"] == "quant":
+        return len(c["xs"]) >= 3 and len(set(c["ws"])) >= 2
     labels = shape_labels(c)
     n = c["npri"]
     rows = c.get("rows", [1, 2])
@@ -844,7 +1152,11 @@ def run(ctx):
                 "csv saved again after a reload, summary json, aggregator SearchOutput, database rows (all / minimised), database "
                 "summary, latent samples (csv, aggregator, database), a directory scraped into a database (Aggregator.from_directory + "
                 "Scraper), plus re-saved database fits and real Drawer fits run twice; non-trivial = at least 2 parameters and 2 "
-                "samples and one of {nesting depth >= 2, shared prior, tuple prior, mixed path depth}; distinct = distinct abstract case")
+                "samples and one of {nesting depth >= 2, shared prior, tuple prior, mixed path depth}; distinct = distinct abstract case; "
+                "plus summary statistics: direct quantile(x, q, weights) calls (exactly representable inputs with ties / zero weights / "
+                "equal weights / q in {0, 1, 1/2, 1/1024 grid, outside [0,1]} and arbitrary binary64 inputs, 0-200 samples) and SamplesPDF "
+                "statistics of in-memory sample sets (equal / normalised / zero-heavy / dominant / boundary 0.99 / dyadic weights, up to "
+                "130 (thorough 257) samples); a quant case is non-trivial with >= 3 samples and >= 2 distinct weights")
     ctx.trusted = [
         "Coq 8.16.1 kernel incl. vm_compute; primitive floats (PrimFloat) are kernel primitives",
         "correspondence harness c09.py / impl/c09_impl.py (abstraction of Sample kwargs into KStr/KTup keys, float.hex transport)",
@@ -852,8 +1164,13 @@ def run(ctx):
         "strip, csv quoting, JSON float text, numpy array storage and sqlite columns are covered by the hypothesis parse (fmt v) = v "
         "of the theorems and by the oracle only (cells compared bit for bit after the code's own float(), and their decimal text "
         "checked by exact rational arithmetic to round to the persisted binary64)",
-        "medians and errors at sigma are numpy quantile arithmetic: no theorem speaks about them; the oracle compares them between "
-        "the persisted and the reloaded samples, C09_best_fit covers the best-fit vector only",
+        "summary statistics: quantile() of pdf.py (argsort, cumsum, normalisation, np.interp incl. its NaN fall-backs), pdf_converged, "
+        "median_pdf, values_at_sigma, errors_at_sigma are modelled once over an abstract number type (Quantile.v) and instantiated with Q "
+        "(theorems) and binary64 (compared bit for bit); outside the model and supplied by the running code per case: the arrangement "
+        "np.argsort gives tied values (SIMD sort, not stable: the check only requires it to BE a sorting permutation, the theorems "
+        "C09_quantile_any_argsort_* hold for every such arrangement), the levels (1 - erf(sigma/sqrt 2))/2 (libm), the configured "
+        "unconverged_sample_size; the sign of a zero chosen by numpy's min/max in the unconverged branch is not compared; weight lists "
+        "whose running sum is 0, infinite or NaN (numpy interpolates over NaN breakpoints) are counted and not compared",
         "modelled not verified: model.json / database round trip of the model itself (C08), set iteration order in Samples.minimise "
         "(either order accepted), sign of a zero stored in an SQLite REAL column (latent samples in the database)",
     ]
@@ -862,12 +1179,20 @@ def run(ctx):
         "give this for every well-formed model tree; text/float round trip is a hypothesis",
         "C09_tree_csv / C09_tree_summary / C09_tree_db are about the code as it is now (Variant.code_is_fixed = true, "
         "dict_drops_zero = false, table_reads_by_position = true)",
+        "C09_quantile_* / C09_stats_lower_median_upper are over exact rationals: non-negative weights and a positive weight of the "
+        "samples other than the one of largest value (the code's normalisation); binary64 rounding is not covered by them (on inputs "
+        "where every operation is exact the rational model is compared with the running code exactly); C09_stats_survive_* hold for "
+        "every arithmetic",
         "C09_tree_csv / C09_roundtrip_csv are about the reader since b5615dc (Variant.table_reads_by_position = true): no guard on "
         "parameter names; names of different priors must differ only for models whose unique paths are all single names "
         "(automatic without tuple priors); *_legacy_* theorems document the code before the repairs",
     ]
     built = ctx.build()
     cases = gen_cases(ctx)
+    # summary statistics: own generator stream, so that the persistence cases above are the ones of earlier rounds
+    import random as _random
+    rng2 = _random.Random(ctx.rng.getrandbits(64))
+    cases += gen_stat_cases(rng2, ctx.tier == "thorough", Gen(rng2, ctx.tier == "thorough"))
     if ctx.replay:
         rp = json.load(open(ctx.replay))
         if rp.get("case"):
@@ -885,8 +1210,9 @@ def run(ctx):
         c["idx"] = i
     fit_csv = [c for c in cases if c["kind"] == "fit" and c["csv"]]
     fit_nocsv = [c for c in cases if c["kind"] == "fit" and not c["csv"]]
-    rest = [c for c in cases if c["kind"] != "fit"]
-    payloads = [{"cases": ch} for ch in chunks(rest, 14)] + [{"cases": ch} for ch in chunks(fit_csv, 2 if len(fit_csv) < 12 else 6) if ch]
+    rest = [c for c in cases if c["kind"] not in ("fit", "quant", "pdf")]
+    stat_cases = [c for c in cases if c["kind"] in ("quant", "pdf")]
+    payloads = [{"cases": ch} for ch in chunks(rest, 14)] + [{"cases": ch} for ch in chunks(stat_cases, 2) if ch] + [{"cases": ch} for ch in chunks(fit_csv, 2 if len(fit_csv) < 12 else 6) if ch]
     if fit_nocsv:
         payloads.append({"cases": fit_nocsv, "samples_to_csv": False})
     outs = common.run_impl_parallel("c09_impl", payloads, timeout=1500)
@@ -898,6 +1224,7 @@ def run(ctx):
         for c, r in zip(p["cases"], o["results"]):
             results[c["idx"]] = r
     terms, term_src = [], []
+    terms2, term2_src = [], []
     for c in cases:
         r = results[c["idx"]]
         key = {k: v for k, v in c.items() if k != "idx"}
@@ -913,7 +1240,8 @@ def run(ctx):
             ctx.failure("oracle", "driver raised %s: %s" % (r["exc"], r.get("msg")), c, classes=[], impl=r)
             continue
         r = r["ok"]
-        fails = {"samples": oracle_samples, "dbseq": oracle_dbseq, "fit": oracle_fit, "jsonhist": oracle_jsonhist}[c["kind"]](c, r)
+        fails = {"samples": oracle_samples, "dbseq": oracle_dbseq, "fit": oracle_fit, "jsonhist": oracle_jsonhist,
+                 "quant": oracle_quant, "pdf": oracle_pdf}[c["kind"]](c, r)
         if c.get("regression"):
             ctx.obligation("regression:" + c["regression"], "regression", not fails,
                            "" if not fails else "; ".join("%s/%s: %s" % (a, b, m[:160]) for a, b, m in fails[:3]))
@@ -929,6 +1257,28 @@ def run(ctx):
         for route, term in coq_cases(c, r):
             terms.append(term)
             term_src.append((c, route, bool(fails)))
+        if c["kind"] in ("samples", "quant", "pdf"):
+            for route, term, label in coq_cases2(c, r):
+                ctx.hist("stats-correspondence", "%s:%s%s" % ("quantile" if c["kind"] == "quant" else "stats:" + route if route == "memory" else "stats:reloaded",
+                                                             label, "" if term else " (not compared)"))
+                if term:
+                    terms2.append(term)
+                    term2_src.append((c, route, bool(fails)))
+        if c["kind"] == "quant":
+            xs_ = [unhex(x) for x in c["xs"]]
+            ctx.hist("quantile-input", "n=%s" % (len(xs_) if len(xs_) < 3 else "3-9" if len(xs_) < 10 else ">=10"))
+            if len(set(xs_)) < len(xs_):
+                ctx.hist("quantile-input", "tied values")
+            if any(unhex(w) == 0.0 for w in c["ws"]):
+                ctx.hist("quantile-input", "zero weight")
+            if len(set(c["ws"])) == 1 and len(xs_) > 1:
+                ctx.hist("quantile-input", "equal weights")
+            for q in c["qs"]:
+                qv = unhex(q)
+                ctx.hist("quantile-level", "q<0 or q>1" if qv < 0 or qv > 1 else "q=0" if qv == 0 else "q=1" if qv == 1 else
+                         "q=0.5" if qv == 0.5 else "tail (<0.01 or >0.99)" if qv < 0.01 or qv > 0.99 else "interior")
+        if c["kind"] == "pdf":
+            ctx.hist("pdf-weights", c["wmode"])
         if c["idx"] % 29 == 0:
             ctx.sample({"kind": c["kind"], "tree": c.get("tree"), "rows": c.get("rows", [])[:2], "ops": c.get("ops")}, limit=6)
     if os.path.exists(os.path.join(common.COQ, "C09", "Model.vo")):
@@ -941,6 +1291,16 @@ def run(ctx):
                         broken={"kind": "correspondence", "name": "C09.check_case"}, found_input=failing)
     else:
         ctx.obligation("correspondence:cases", "correspondence", False, "Model.vo not built")
+    if os.path.exists(os.path.join(common.COQ, "C09", "Stats.vo")):
+        hdr = ctx.header(["Common.PyFloat", "Model", "Quantile", "Stats"])
+        bad, log = ctx.eval_cases(hdr, "case2", "check_case2", terms2, tag="stats", shard=150)
+        for b in (bad or [])[:5]:
+            c, route, failing = term2_src[b]
+            ctx.failure("correspondence", "model and implementation disagree on the summary statistics (%s, %s)" % (c["kind"], route), c,
+                        classes=[], impl={"route": route, "term": terms2[b][:3000]},
+                        broken={"kind": "correspondence", "name": "C09.check_case2"}, found_input=failing)
+    else:
+        ctx.obligation("correspondence:stats", "correspondence", False, "Stats.vo not built")
 
 
 MANIFEST = {
@@ -952,10 +1312,20 @@ MANIFEST = {
             "regression obligations); named json rows of a database fit: the last save wins for every save history; value per path is independent of the prior numbering of a re-created model; hence the same "
             "best-fit vector; plus vm_compute correspondence of keys / lookups / exceptions with the running code on generated model "
             "shapes x extreme floats (Python and numpy) over csv, re-saved csv, aggregator, summary, database, scrape and latent "
-            "routes and a direct property oracle incl. real fits run twice",
+            "routes and a direct property oracle incl. real fits run twice; summary statistics: an executable model of quantile() "
+            "(corner.py weighted quantile: argsort, cumulative weights without the largest sample, np.interp) and of median_pdf / "
+            "values_at_sigma / errors_at_sigma, with theorems over exact rationals (result between two adjacent sorted sample values, "
+            "monotone in the level, lower <= median <= upper, order-independent for distinct values; order dependence on ties, influence "
+            "of zero-weight samples and the missing half-weight property kept as *_refuted statements), the corollaries "
+            "C09_stats_survive_csv / _db (statistics of the reloaded samples = statistics of the samples in memory, any arithmetic), "
+            "bit-for-bit binary64 and exact-rational correspondence of quantile and of the statistics of in-memory and reloaded samples",
     "note": "Trusted: Coq kernel + vm_compute, the correspondence harness; the text layer (decimal text of floats, padding, JSON, "
-            "numpy, sqlite) is a hypothesis of the theorems and is checked by the oracle only, bit for bit; medians and error "
-            "estimates are compared by the oracle only (no theorem); model.json/database round trip of the model itself is C08. "
+            "numpy, sqlite) is a hypothesis of the theorems and is checked by the oracle only, bit for bit; the quantile theorems "
+            "are over Q (binary64 rounding only by correspondence); np.argsort's tie order, the erf levels and numpy min/max zero signs "
+            "are inputs taken from the running code; no theorem gives a weight-on-each-side guarantee for the median (refuted for this "
+            "algorithm); covariance_matrix, SamplesMCMC / SamplesNest specifics (log_evidence is read from samples_info: oracle only) "
+            "and instance construction from the median vector (C10/C12 territory) are not modelled; model.json/database round trip "
+            "of the model itself is C08. "
             "Known finding: positional error vectors of the summary read against a re-created model.",
     "technique": "machine-checked proof in Coq (hand-written executable model) + vm_compute correspondence + property oracle",
 }
